@@ -67,7 +67,8 @@ class RuleCtx:
         """Evaluate an expression (Python text) in the context of `fi`'s module."""
         from ..gvn import Frame
         fr = Frame(self.ev, fi, 0)
-        node = ast.parse(text.strip(), mode="eval").body
+        from ..model import keep
+        node = keep(ast.parse(text.strip(), mode="eval")).body
         # names in the text resolve through the function's scope
         for n in ast.walk(node):
             fi.module.node_scope[id(n)] = fi.scope
